@@ -234,6 +234,8 @@ def _loop_tail(stmts: Sequence[ast.stmt], on_return) -> Optional[List[ast.stmt]]
     if not stmts or not isinstance(stmts[-1], (ast.While, ast.For)) or stmts[-1].orelse or _has_return(stmts[:-1]):
         return None
     loop = stmts[-1]
+    if not _has_return([loop]):
+        return None  # nothing to do with the loop: plain tail positions
     for n in _walk_no_defs(loop):
         if isinstance(n, ast.Break):
             return None
@@ -437,6 +439,16 @@ class Inliner:
                 continue
             if assign_target is not None and loc == assign_target and loc not in arg_names:
                 continue  # x = helper(...): the helper's local x may be the caller's x (it is overwritten by the result anyway)
+            # the same pure alias in both (op = dis.opmap): one variable will do
+            def sole_value(fn_: ast.AST, name: str) -> Optional[str]:
+                vals = [a_.value for a_ in _scope_nodes(fn_) if isinstance(a_, ast.Assign) and len(a_.targets) == 1 and isinstance(a_.targets[0], ast.Name) and a_.targets[0].id == name]
+                stores = [n_ for n_ in _scope_nodes(fn_) if isinstance(n_, ast.Name) and n_.id == name and isinstance(n_.ctx, (ast.Store, ast.Del))]
+                if len(vals) == 1 and len(stores) == 1 and _pure_arg(vals[0]) and not isinstance(vals[0], ast.Name):
+                    return ast.unparse(vals[0])
+                return None
+            sv = sole_value(h, loc)
+            if sv is not None and sv == sole_value(caller, loc):
+                continue
             if loc in caller_names:
                 rename[loc] = fresh(loc)
                 caller_names.add(rename[loc])
